@@ -169,11 +169,14 @@ class TaskTiming(Contract):
         # ... and an optional task can always be left out (witness: the library's own convention
         # start = end = -task_number, duration 0), whatever its release date / due date
         if case["optional"]:
-            pp = spec.past_point(t)
-            wit = [(t._start, z3.IntVal(pp)), (t._end, z3.IntVal(pp))]
-            if case["cls"] == "VariableDurationTask":
-                wit.append((t._duration, z3.IntVal(0)))
-            goal = z3.substitute(And(*A), *wit)
+            pp = spec.parking(t)
+            if pp is None:
+                goal = z3.Exists(spec.unscheduled_unknowns(t), And(*A))  # some placement of the left-out task must do
+            else:
+                wit = [(t._start, z3.IntVal(pp)), (t._end, z3.IntVal(pp))]
+                if case["cls"] == "VariableDurationTask":
+                    wit.append((t._duration, z3.IntVal(0)))
+                goal = z3.substitute(And(*A), *wit)
             hyps = [Not(s), hz >= 0] + ([hz <= T(H)] if H is not None else []) + dom + others
             regions = {}
             if t.release_date is not None:
